@@ -976,8 +976,9 @@ impl G<'_> {
             let from = match (tx, r.below(10)) {
                 (Some(t), 0..=6) => {
                     if cancel {
-                        // the earliest approver when it is an account
-                        match t.approved.first().and_then(|a| acct_ids.iter().position(|x| x == a)) {
+                        // the earliest approver when it is an account (one time in three: any approver)
+                        let pick = if r.chance(1, 3) && !t.approved.is_empty() { Some(r.pick(&t.approved)) } else { t.approved.first() };
+                        match pick.and_then(|a| acct_ids.iter().position(|x| x == a)) {
                             Some(i) => i,
                             None => if signer_accts.is_empty() { outsider } else { *r.pick(&signer_accts) },
                         }
@@ -1244,9 +1245,12 @@ pub fn run(cfg: &RunCfg) -> Report {
         })() } else { (|| {
             // ---- wallet A (sometimes after refused constructors)
             let acct_ids: Vec<u64> = s.e.accts.iter().map(|a| a.id().unwrap()).collect();
-            let n = r.range(2, 5) as usize;
+            // one sequence in three: a 5-signer wallet with a high threshold, so that pending
+            // transactions collect three and more approvals before a signer is removed or swapped
+            let deep = r.chance(1, 3);
+            let n = if deep { 5 } else { r.range(2, 5) as usize };
             let signers: Vec<u64> = acct_ids[0..n].to_vec();
-            let threshold = if r.chance(1, 3) { 1 } else { r.range(1, n as i64) as u64 };
+            let threshold = if deep { r.range(3, 4) as u64 } else if r.chance(1, 3) { 1 } else { r.range(1, n as i64) as u64 };
             let lock = r.chance(1, 2);
             let (duration, start) = if lock { (*r.pick(&[1i64, 10, 40, 100]), s.epoch + r.range(-5, 20)) } else { (0, r.range(0, 5)) };
             let deposit = r.range(0, 1000);
